@@ -2823,7 +2823,12 @@ class Env(cabc.MutableMapping):
             # restore the values
             for k, v in old.items():
                 if v is NotImplemented:
-                    self._del_item(k, thread_local=True)
+                    try:
+                        self._del_item(k, thread_local=True)
+                    except KeyError:
+                        # already deleted inside the scope: nothing to undo,
+                        # and the remaining variables still have to be restored
+                        pass
                 else:
                     self._set_item(k, v, thread_local=True)
             if exception is not None:
